@@ -85,8 +85,10 @@ class Sub:
     """
 
     def __init__(self, name, body, strategy=None, quick=200, thorough=2000, shards_quick=1,
-                 shards_thorough=16, enumerate=None, machine=None, steps=(20, 40), doc="", custom=None):
+                 shards_thorough=16, enumerate=None, machine=None, steps=(20, 40), doc="", custom=None, heavy=False):
         self.name = name
+        # heavy: few, expensive cases (large inputs): one shard in the quick tier, not multiplied, not counted when idle cores are shared out
+        self.heavy = heavy
         self.body = body
         self.strategy = strategy
         self.quick = quick
@@ -555,14 +557,16 @@ def main(check_id, tier, replay=None, only=None):
     default_budget = 150.0 if tier == "quick" else 1500.0
     budget_s = float(os.environ.get("VERIF_BUDGET_S", default_budget))
     # use idle cores: when a property's quick tier has fewer shards than workers, every generated sub-check gets more shards (more cases, same wall time)
-    planned = sum(s.shards[tier] for s in mod.SUBCHECKS if s.name in per_sub)
+    planned = sum(s.shards[tier] for s in mod.SUBCHECKS if s.name in per_sub and not s.heavy)
     boost = max(1, min(4, 16 // max(planned, 1))) if tier == "quick" else 1  # independent of the machine: the cases depend on the seed only
     for k, s in enumerate(mod.SUBCHECKS):
         if s.name not in per_sub:
             continue
         nshards = s.shards[tier]
-        if s.enumerate is None and s.custom is None:
+        if s.enumerate is None and s.custom is None and not s.heavy:
             nshards *= boost
+        if s.heavy and tier == "thorough":
+            nshards = min(nshards, 8)
         if s.enumerate is not None:
             nshards = MAX_WORKERS if tier == "thorough" else min(MAX_WORKERS, max(1, s.shards[tier]))
         for j in range(nshards):
